@@ -278,7 +278,13 @@ def extract_ast():
                 tr = ast.parse(open(os.path.join(root, f), encoding="utf8").read())
                 _scan(tr, rel, [], writes, randoms)
         t["writes"] = sorted(set(writes))
-        t["randomCalls"] = sorted(set(randoms))
+        # call sites into `random` per file and function of the random module (not per enclosing function: private
+        # helpers may be renamed or split without changing what the nondeterministic model has to cover)
+        counts = {}
+        for scope, fn in randoms:
+            key = (scope.split(":")[0], fn)
+            counts[key] = counts.get(key, 0) + 1
+        t["randomCalls"] = sorted((a, b, n) for (a, b), n in counts.items())
     except TieABroken:
         raise
     except Exception as err:  # noqa: BLE001
@@ -435,7 +441,7 @@ def render(t) -> str:
         + llist(f"({lstr(a)}, {lstr(b)}, {c}, {llist(lstr(x) for x in d)})" for a, b, c, d in t["reCalls"])
     )
     pairs_ss("writes", t["writes"])
-    pairs_ss("randomCalls", t["randomCalls"])
+    L.append("def randomCalls : List (String × String × Nat) := " + llist(f"({lstr(a)}, {lstr(b)}, {n})" for a, b, n in t["randomCalls"]))
     L.append("")
     L.append("end JPV.Generated")
     return "\n".join(L) + "\n"
